@@ -3,7 +3,10 @@
    Adapter: the hand model abstracts a salt to a number (wal.Salt.Equal = equality, the zero
    Salt = 0) and counts the resume frame index in nat; rep gives the Go-side struct. *)
 From Coq Require Import List NArith ZArith Bool Lia ZifyBool ZifyNat ZifyN.
-From RQ Require Import Lib.GoLib Lib.GenTac Model.C06 Gen.WalResetWatch.
+From RQ Require Import Lib.GoLib.
+From RQ Require Import Lib.GenTac.
+From RQ Require Import Model.C06.
+From RQ Require Import Gen.WalResetWatch.
 Local Open Scope Z_scope.
 
 (* The Section variables of the generated file (the calls that are not translated) are instantiated
@@ -15,7 +18,7 @@ Arguments WALResetWatch_Check wal_Salt zero_wal_Salt wal_Salt_Equal _ _ : assert
 Definition rep (w : watch) : WALResetWatch N :=
   mk_WALResetWatch N (armed w) (wsalt w) (Z.of_nat (resume w)).
 
-Ltac unf := cbv beta iota zeta delta [rep WALResetWatch_Arm WALResetWatch_Disarm WALResetWatch_Check
+Ltac unf := aux; cbv beta iota zeta delta [rep WALResetWatch_Arm WALResetWatch_Disarm WALResetWatch_Check
   arm disarmed check WALResetWatch_armed WALResetWatch_salt WALResetWatch_resumeFrameIdx
   armed wsalt resume fst snd] in *.
 
